@@ -153,6 +153,14 @@ func (e *termEnv) computePath(v ssa.Value) string {
 		if x.Low == nil && x.High == nil {
 			return e.path(x.X)
 		}
+		lo, hi := "", ""
+		if x.Low != nil {
+			lo = e.T(x.Low)
+		}
+		if x.High != nil {
+			hi = e.T(x.High)
+		}
+		return e.path(x.X) + "{" + lo + ":" + hi + "}"
 	}
 	return "v:" + v.Name()
 }
@@ -648,6 +656,12 @@ type termSpec struct {
 	// Event is asked for every call with effects (not pure); it says whether the call is
 	// recorded as an event and may name the call's result ("" = default r<k>). nil = record all.
 	Event func(env *termEnv, call *ssa.Call, callee *ssa.Function) (keep bool, result string)
+	// InitSym presets the terms of values (e.g. a parameter bound to a constant).
+	InitSym map[ssa.Value]string
+	// InitMem seeds the symbolic store (e.g. a concrete geometry: "tc.probTree.bits" -> "3").
+	InitMem map[string]string
+	// BitCallee: results of these callees are named b<k>; result #0 is a single bit.
+	BitCallee func(callee *ssa.Function) bool
 	// KeepMem: locations of the symbolic store that no call can change (justified by the client).
 	KeepMem func(path string) bool
 	// KeepErrPaths keeps paths that return a non-nil error.
@@ -695,6 +709,9 @@ func collectTermPaths(c *Ctx, spec termSpec) (paths []termPath, overflow bool) {
 			if res == "" {
 				s.nres++
 				res = "r" + strconv.Itoa(s.nres)
+				if spec.BitCallee != nil && callee != nil && spec.BitCallee(callee) {
+					res = "b" + strconv.Itoa(s.nres)
+				}
 			}
 			if keep {
 				ev := tEvent{Callee: callee, Call: x, Name: "dyn:" + x.Call.Value.Name(), Result: res}
@@ -782,7 +799,14 @@ func collectTermPaths(c *Ctx, spec termSpec) (paths []termPath, overflow bool) {
 		}
 		paths = append(paths, tp)
 	}
-	w.Run(newTState())
+	init := newTState()
+	for k, v := range spec.InitMem {
+		init.mem[k] = v
+	}
+	for k, v := range spec.InitSym {
+		init.symv[k] = v
+	}
+	w.Run(init)
 	return paths, w.Overflow
 }
 
@@ -898,6 +922,37 @@ func simplify(t string) string {
 		}
 		a, oka := num(args[0])
 		b, okb := num(args[1])
+		if !(oka && okb) {
+			// interval reasoning: bits, shifts, disjoint ors
+			alo, ahi, ok1 := termRange(args[0])
+			blo, bhi, ok2 := termRange(args[1])
+			if ok1 && ok2 {
+				switch op {
+				case "lt":
+					if ahi < blo {
+						return "true"
+					}
+					if alo >= bhi {
+						return "false"
+					}
+				case "le":
+					if ahi <= blo {
+						return "true"
+					}
+					if alo > bhi {
+						return "false"
+					}
+				case "eq":
+					if ahi < blo || bhi < alo {
+						return "false"
+					}
+				case "ne":
+					if ahi < blo || bhi < alo {
+						return "true"
+					}
+				}
+			}
+		}
 		if oka && okb {
 			switch op {
 			case "lt":
@@ -942,6 +997,26 @@ func simplify(t string) string {
 				return boolS(op == "eq")
 			}
 		}
+	case "shl", "shr":
+		if len(args) == 2 {
+			a, oka := num(args[0])
+			b, okb := num(args[1])
+			if oka && okb && a >= 0 && b >= 0 && b < 62 {
+				if op == "shl" {
+					return strconv.FormatInt(a<<uint(b), 10)
+				}
+				return strconv.FormatInt(a>>uint(b), 10)
+			}
+			if okb && b == 0 {
+				return args[0]
+			}
+		}
+	case "neg":
+		if len(args) == 1 {
+			if a, ok := num(args[0]); ok {
+				return strconv.FormatInt(-a, 10)
+			}
+		}
 	case "not":
 		if len(args) == 1 {
 			switch args[0] {
@@ -965,4 +1040,97 @@ func simplify(t string) string {
 		}
 	}
 	return t
+}
+
+// termRange: a conservative interval for a non-negative integer term. Results named b<k>
+// are decoded bits (0/1); (and X 1) is a bit; shifts by constants scale; an `or` of a
+// value shifted left by >= j with values below 2^j is their sum; sums add.
+func termRange(t string) (lo, hi int64, ok bool) {
+	if k, err := strconv.ParseInt(t, 10, 64); err == nil {
+		return k, k, k >= 0
+	}
+	if strings.HasPrefix(t, "(ext0 b") && strings.HasSuffix(t, ")") {
+		return 0, 1, true
+	}
+	if !strings.HasPrefix(t, "(") {
+		return 0, 0, false
+	}
+	sp := strings.IndexByte(t, ' ')
+	if sp < 0 {
+		return 0, 0, false
+	}
+	op := t[1:sp]
+	args := splitTerm(t[sp+1 : len(t)-1])
+	switch op {
+	case "and":
+		// bounded by the smallest constant operand
+		best := int64(-1)
+		for _, a := range args {
+			if k, err := strconv.ParseInt(a, 10, 64); err == nil && k >= 0 && (best < 0 || k < best) {
+				best = k
+			}
+			if _, h, ok := termRange(a); ok && (best < 0 || h < best) {
+				best = h
+			}
+		}
+		if best >= 0 {
+			return 0, best, true
+		}
+	case "shl":
+		if len(args) == 2 {
+			l, h, ok1 := termRange(args[0])
+			k, err := strconv.ParseInt(args[1], 10, 64)
+			if ok1 && err == nil && k >= 0 && k < 40 && h < 1<<20 {
+				return l << uint(k), h << uint(k), true
+			}
+		}
+	case "shr":
+		if len(args) == 2 {
+			l, h, ok1 := termRange(args[0])
+			k, err := strconv.ParseInt(args[1], 10, 64)
+			if ok1 && err == nil && k >= 0 && k < 62 {
+				return l >> uint(k), h >> uint(k), true
+			}
+		}
+	case "or":
+		// a|b >= max(a, b) and a|b <= a+b
+		var mlo, shi int64
+		for _, a := range args {
+			l, h, ok1 := termRange(a)
+			if !ok1 {
+				return 0, 0, false
+			}
+			if l > mlo {
+				mlo = l
+			}
+			shi += h
+		}
+		return mlo, shi, true
+	case "+":
+		var sl, sh int64
+		for _, a := range args {
+			l, h, ok1 := termRange(a)
+			if !ok1 {
+				return 0, 0, false
+			}
+			sl += l
+			sh += h
+		}
+		return sl, sh, true
+	case "ite":
+		if len(args) == 3 {
+			l1, h1, ok1 := termRange(args[1])
+			l2, h2, ok2 := termRange(args[2])
+			if ok1 && ok2 {
+				if l2 < l1 {
+					l1 = l2
+				}
+				if h2 > h1 {
+					h1 = h2
+				}
+				return l1, h1, true
+			}
+		}
+	}
+	return 0, 0, false
 }
